@@ -1,7 +1,150 @@
-(* C01: structural facts about the composed model (Model/Pipeline.v). *)
+(* C01: structural facts about the composed model (Model/Pipeline.v).
+
+   - what the generated tables of object_stream.py make the model emit (these lemmas are closed by computation over
+     Gen/TablesStream.v: a change of a node name or of an argument order in the source breaks them);
+   - each component hands a one-parameter lambda on as a one-parameter lambda with the same parameter;
+   - the list combinators of the direct semantics are the ones of the reference semantics. *)
 From FA.Base Require Import PyAst Value Eval.
 From FA.Gen Require Import Tables TablesStream.
 From FA.Model Require Import TypeDefs Pipeline.
+From FA.Model Require Capture Sugar TypeFollow MetaData.
+From FA.Proofs Require Import TraverseFacts.
+
+(* ---------- the emitted nodes ---------- *)
 
 Lemma op_node_select src lam : op_node OpSelect src lam = Some (function_call "Select" [src; lam]).
 Proof. reflexivity. Qed.
+
+Lemma op_node_where src lam : op_node OpWhere src lam = Some (function_call "Where" [src; lam]).
+Proof. reflexivity. Qed.
+
+Lemma op_node_selectmany src lam : op_node OpSelectMany src lam = Some (function_call "SelectMany" [src; lam]).
+Proof. reflexivity. Qed.
+
+Lemma op_node_other op src lam : op_node op src lam <> None -> op = OpSelect \/ op = OpSelectMany \/ op = OpWhere.
+Proof. destruct op; cbn; intros H; auto; contradiction H; reflexivity. Qed.
+
+Lemma md_node_is src d : md_node src d = Some (function_call "MetaData" [src; d]).
+Proof. reflexivity. Qed.
+
+Definition op_name (op : opkind) : string :=
+  match op with OpSelect => "Select" | OpSelectMany => "SelectMany" | OpWhere => "Where" | _ => "" end.
+
+Lemma op_node_some op src lam q :
+  op_node op src lam = Some q ->
+  (op = OpSelect \/ op = OpSelectMany \/ op = OpWhere) /\ q = function_call (op_name op) [src; lam].
+Proof.
+  destruct op; cbn; intros H; try discriminate; inversion H; subst; auto.
+Qed.
+
+(* MetaData wrappers: one per metadata event, first event innermost *)
+Fixpoint md_wrap (src : expr) (ds : list expr) : expr :=
+  match ds with
+  | [] => src
+  | d :: r => md_wrap (function_call "MetaData" [src; d]) r
+  end.
+
+Definition md_of_events (evs : list TypeFollow.event) : list expr :=
+  flat_map (fun e => match e with TypeFollow.EvMeta d => [d] | _ => [] end) evs.
+
+Lemma wrap_events_is src evs : wrap_events src evs = Some (md_wrap src (md_of_events evs)).
+Proof.
+  revert src. induction evs as [|e evs IH]; intros src; [reflexivity|].
+  destruct e; cbn [wrap_events md_of_events flat_map app]; apply IH.
+Qed.
+
+(* the four terminals, argument order as in the source *)
+Lemma terminal_awkward cols src :
+  terminal_node {| t_method := "AsAwkwardArray"; t_args := [("columns", cols)] |} src
+  = Some (function_call "ResultAwkwardArray" [src; as_ast_tval (norm_columns cols)]).
+Proof. reflexivity. Qed.
+
+Lemma terminal_pandas cols src :
+  terminal_node {| t_method := "AsPandasDF"; t_args := [("columns", cols)] |} src
+  = Some (function_call "ResultPandasDF" [src; as_ast_tval (norm_columns cols)]).
+Proof. reflexivity. Qed.
+
+Lemma terminal_ttree fname tname cols src :
+  terminal_node {| t_method := "AsROOTTTree"; t_args := [("filename", fname); ("treename", tname); ("columns", cols)] |} src
+  = Some (function_call "ResultTTree" [src; as_ast_tval (norm_columns cols); as_ast_tval tname; as_ast_tval fname]).
+Proof. reflexivity. Qed.
+
+Lemma terminal_parquet fname cols src :
+  terminal_node {| t_method := "AsParquetFiles"; t_args := [("filename", fname); ("columns", cols)] |} src
+  = Some (function_call "ResultParquet" [src; as_ast_tval (norm_columns cols); as_ast_tval fname]).
+Proof. reflexivity. Qed.
+
+(* whatever the table says, a terminal node is a keyword-free name call whose first argument is the stream *)
+Lemma terminal_node_shape t src q :
+  terminal_node t src = Some q -> exists node args, q = function_call node (src :: args).
+Proof.
+  unfold terminal_node. intros H. apply obind_some in H. destruct H as [[node spec] [_ H]].
+  cbn [fst snd] in H. destruct (omap _ spec) as [args|]; [|discriminate]. inversion H; eauto.
+Qed.
+
+(* ---------- lambdas stay lambdas ---------- *)
+
+Lemma sugar_lambda ps b l' :
+  Sugar.sugar (Lambda ps b) = Sugar.Ok l' -> exists b', l' = Lambda ps b' /\ Sugar.sugar b = Sugar.Ok b'.
+Proof.
+  change (Sugar.sugar (Lambda ps b)) with (Sugar.rbind (Sugar.sugar b) (fun b' => Sugar.Ok (Lambda ps b'))).
+  destruct (Sugar.sugar b) as [b'|e]; cbn; intros H; [|discriminate]. inversion H; eauto.
+Qed.
+
+Lemma sugar_lambda_ok ps b b' : Sugar.sugar b = Sugar.Ok b' -> Sugar.sugar (Lambda ps b) = Sugar.Ok (Lambda ps b').
+Proof.
+  intros H. change (Sugar.sugar (Lambda ps b)) with (Sugar.rbind (Sugar.sugar b) (fun b' => Sugar.Ok (Lambda ps b'))).
+  rewrite H. reflexivity.
+Qed.
+
+Lemma parse_callable_lambda ce ps b l' :
+  Capture.parse_callable ce (Lambda ps b) = Capture.Ok l' -> exists b', l' = Lambda ps b'.
+Proof.
+  unfold Capture.parse_callable, Capture.rewrite_captured. cbn [Capture.rw Capture.same Capture.sbind].
+  destruct (Capture.rw ce [ps] b) as [[b1 b2]|e]; cbn; intros H; [|discriminate].
+  inversion H; eauto.
+Qed.
+
+Lemma acquire_lambda_shape a ps b l' :
+  acquire_lambda a (Lambda ps b) = Capture.Ok l' -> exists b', l' = Lambda ps b'.
+Proof.
+  destruct a as [ce|]; cbn [acquire_lambda]; intros H.
+  - eapply parse_callable_lambda; eassumption.
+  - inversion H; eauto.
+Qed.
+
+Lemma stream_op_shape W op item lam lam2 t evs :
+  TypeFollow.stream_op W op [] item lam = TypeFollow.Ok (lam2, t, evs) ->
+  exists p b b2 t0, lam = Lambda [p] b /\ lam2 = Lambda [p] b2 /\
+    TypeFollow.follow W [(p, item)] b = TypeFollow.Ok (b2, t0, evs).
+Proof.
+  destruct lam; cbn [TypeFollow.stream_op]; try discriminate.
+  destruct ps as [|p [|p' ps]]; try discriminate.
+  destruct (TypeFollow.follow W [(p, item)] lam) as [[[b2 t0] ev]|r|k] eqn:Hf; cbn [TypeFollow.bind]; try discriminate.
+  unfold TypeFollow.finish_op. destruct (negb _); [discriminate|].
+  assert (G : forall t', (Lambda [p] b2, t', ev) = (lam2, t, evs) ->
+              exists p0 b b0 t1, Lambda [p] lam = Lambda [p0] b /\ lam2 = Lambda [p0] b0 /\
+                TypeFollow.follow W [(p0, item)] b = TypeFollow.Ok (b0, t1, evs)).
+  { intros t' H. inversion H; subst. exists p, lam, b2, t0. repeat split. exact Hf. }
+  destruct op; try discriminate.
+  - intros H; inversion H; subst. eapply G; reflexivity.
+  - intros H; inversion H; subst. eapply G; reflexivity.
+  - destruct (ty_eqb t0 TBool); [|discriminate]. intros H; inversion H; subst. eapply G; reflexivity.
+Qed.
+
+(* ---------- the list combinators of the direct semantics ---------- *)
+
+Lemma map_opt_omap {A C} (f : A -> option C) l : map_opt f l = omap f l.
+Proof.
+  unfold omap. induction l as [|x r IH]; [reflexivity|]. cbn [map_opt map sequence].
+  destruct (f x); cbn [obind]; [|reflexivity]. rewrite IH. destruct (sequence (map f r)); reflexivity.
+Qed.
+
+Lemma filter_opt_ofilter {A} (p : A -> option bool) l : filter_opt p l = ofilter p l.
+Proof.
+  induction l as [|x r IH]; [reflexivity|]. cbn [filter_opt ofilter].
+  destruct (p x); cbn [obind]; [|reflexivity]. rewrite IH. destruct (ofilter p r); reflexivity.
+Qed.
+
+Lemma seq_items_as_list v : seq_items v = as_list v.
+Proof. destruct v; reflexivity. Qed.
